@@ -329,7 +329,13 @@ def add_assemble_only_arguments(parser: argparse.ArgumentParser) -> None:
         default=DEFAULT_MAX_MACRO_RECURSION_DEPTH,
         help='The compiler supports macros that recursively uses other macros, ' 'up to the this specified depth',
     )
-    asm_arguments.add_argument('--no_stl', help="don't assemble/link the standard library files", action='store_true')
+    asm_arguments.add_argument(
+        '--no_stl',
+        '--no-stl',  # the spelling the README documents
+        dest='no_stl',
+        help="don't assemble/link the standard library files",
+        action='store_true',
+    )
     asm_arguments.add_argument('--stats', help="show macro code-size statistics", action='store_true')
 
 
